@@ -287,4 +287,89 @@ theorem reachable_fresh (s : St) (h : Reachable s) : Fresh s := by
   obtain ⟨acts, hr⟩ := h
   exact run_preserves (P := Fresh) step_fresh acts _ s Fresh_init hr
 
+/-! ### the lifecycle automaton of one endpoint (C03) -/
+
+inductive Phase where
+  | init | est | ended | bad
+deriving DecidableEq, Repr
+
+/-- `ε | Connected(true) Message* Disconnected? | Connected(false)` for endpoints returned by
+`connect()`, `ε | Accepted(listener) Message* Disconnected?` for accepted ones -/
+def phaseStep (listener : Option Nat) : Phase → Ev → Phase
+  | .init, .connected _ true => if listener = none then .est else .bad
+  | .init, .connected _ false => if listener = none then .ended else .bad
+  | .init, .accepted _ l => if listener = some l then .est else .bad
+  | .est, .message _ => .est
+  | .est, .disconnected _ => .ended
+  | _, _ => .bad
+
+def proj (id : Nat) (log : List Ev) : List Ev := log.filter (fun e => e.rid = some id)
+
+def phaseOf (r : Reg) (log : List Ev) : Phase := (proj r.id log).foldl (phaseStep r.listener) .init
+
+theorem phaseOf_append (r : Reg) (log : List Ev) (e : Ev) :
+    phaseOf r (log ++ [e]) = if e.rid = some r.id then phaseStep r.listener (phaseOf r log) e else phaseOf r log := by
+  unfold phaseOf proj
+  rw [List.filter_append]
+  by_cases h : e.rid = some r.id
+  · simp [h, List.foldl_append]
+  · simp [h]
+
+/-- what the lifecycle phase of a register says about the rest of the state -/
+def GoodCore (ph : Phase) (ready : Bool) (inLive : Bool) (proc : Proc) (rid : Nat) : Prop :=
+  ph ≠ .bad ∧ (ph = .init → ready = false) ∧ (ph = .est → ready = true) ∧
+  (ph = .ended → inLive = false ∧
+    (match proc with
+     | .got id _ => id ≠ rid
+     | .receiving id _ _ => id ≠ rid
+     | .afterReceive id _ => id ≠ rid
+     | .readyChecked id _ => id = rid → ready = false
+     | _ => True)) ∧
+  (match proc with
+   | .receiving id _ _ => id = rid → ready = true
+   | .afterReceive id _ => id = rid → ready = true
+   | _ => True)
+
+def Good (s : St) (r : Reg) : Prop := GoodCore (phaseOf r s.log) r.ready (s.live.contains r.id) s.proc r.id
+
+def LogIds (s : St) : Prop := ∀ e ∈ s.log, ∀ id, e.rid = some id → id < s.nextRemote
+
+structure Inv (s : St) : Prop where
+  fresh : Fresh s
+  logIds : LogIds s
+  good : ∀ r ∈ s.regs, Good s r
+
+theorem find_unique : ∀ (regs : List Reg) (r : Reg), (regs.map (·.id)).Nodup → r ∈ regs →
+    regs.find? (fun x => decide (x.id = r.id)) = some r := by
+  intro regs
+  induction regs with
+  | nil => intro r _ hr; simp at hr
+  | cons x xs ih =>
+    intro r hnd hr
+    simp only [List.map_cons, List.nodup_cons] at hnd
+    rcases List.mem_cons.mp hr with hr | hr
+    · subst hr; simp [List.find?]
+    · have hne : x.id ≠ r.id := by
+        intro heq
+        exact hnd.1 (heq ▸ List.mem_map.mpr ⟨r, hr, rfl⟩)
+      simp only [List.find?, hne, decide_false]
+      exact ih r hnd.2 hr
+
+theorem findReg_unique (s : St) (h : Fresh s) (r : Reg) (hr : r ∈ s.regs) : findReg s r.id = some r :=
+  find_unique s.regs r h.regsNodup hr
+
+theorem findReg_some (s : St) (id : Nat) (r : Reg) (h : findReg s id = some r) : r ∈ s.regs ∧ r.id = id := by
+  unfold findReg at h
+  have := List.find?_some h
+  exact ⟨List.mem_of_find?_eq_some h, by simpa using this⟩
+
+theorem proj_nil_of_fresh (s : St) (h : LogIds s) (id : Nat) (hid : s.nextRemote ≤ id) : proj id s.log = [] := by
+  unfold proj
+  rw [List.filter_eq_nil_iff]
+  intro e he
+  simp only [decide_eq_true_eq]
+  intro heq
+  have := h e he id heq
+  omega
+
 end Mio.Net
